@@ -682,7 +682,7 @@ func init() {
 				add("all-commands-1key-k2", p("k", 2, "keys", 1, "cmds", 65535))
 				add("string-hash-del-type-2keys-k3", p("k", 3, "keys", 2, "cmds", cSet|cGet|cDel|cType|cHSet|cHGet|cHDel|cRestart))
 				add("list-restart-k4", p("k", 4, "keys", 1, "cmds", cLPush|cLPop|cDel|cRestart))
-				add("zset-btree-k3", p("k", 3, "keys", 1, "cmds", cZAdd|cZScore|cDel|cRestart, "index", 1, "nscores", 2))
+				add("zset-btree-k3", p("k", 3, "keys", 1, "cmds", cZAdd|cZScore|cDel, "index", 1, "nscores", 2))
 				add("set-type-k3", p("k", 3, "keys", 1, "cmds", cSAdd|cSRem|cSIsMember|cDel|cType|cSet))
 				// delete + re-create across a restart (a re-created key must start empty)
 				add("hash-del-restart-k4", p("k", 4, "keys", 1, "cmds", cHSet|cHGet|cDel|cRestart))
